@@ -790,6 +790,8 @@ func genC08(b *builder, n int) {
 		b.add("corpus", "tojson", []byte(s), nil)
 	}
 	for _, d := range docs {
+		b.add("files", "file", []byte(d), withKnown)
+		b.add("files", "file", []byte(d[:len(d)/2]), withKnown)
 		b.add("docs", "raw", []byte(d), nil)
 		b.add("docs", "filtered", []byte(d), nil)
 		b.add("docs", "ptokens", []byte(d), nil)
@@ -980,6 +982,19 @@ json.Number("1.7976931348623157e308"), []interface{}{[]interface{}{[]interface{}
 		}
 		js, _ := json.Marshal(v)
 		b.add(stream, "print", js, func(c *Case) { c.PV = tree; c.Want = want; c.goVal = v })
+	}
+	nfile := 0
+	addPrint0 := addPrint
+	addPrint = func(stream string, v interface{}) {
+		addPrint0(stream, v)
+		nfile++
+		if nfile%8 == 1 {
+			js, err := json.Marshal(v)
+			if err != nil {
+				return
+			}
+			b.add("files", "file", js, func(c *Case) { c.goVal = v; c.PV = true; c.Known = seriesKnown })
+		}
 	}
 	for _, v := range fixed {
 		addPrint("corpus", v)
